@@ -55,6 +55,9 @@ pub struct SCfg {
     /// A response becomes deliverable only this many `recv_probe` calls after its probe was sent
     /// (round-trip time longer than the loop period: several probes are in flight).
     pub latency: usize,
+    /// Equal-cost multipath: probes whose ttl has parity `.1` travel a branch that is `.0` hops
+    /// longer, so on that branch the ttls d..d+extra-1 are answered by routers (0 = single path).
+    pub ecmp_longer: (u8, u8),
     pub strategy: StrategyConfig,
 }
 
@@ -250,8 +253,13 @@ impl Network for SNet {
         match outcome {
             SendOutcome::Ok => {
                 let ttl = probe.ttl.0;
-                let reaches_target = w.cfg.target_dist.is_some_and(|d| ttl >= d);
-                if reaches_target {
+                let extra = if w.cfg.ecmp_longer.0 > 0 && ttl % 2 == w.cfg.ecmp_longer.1 { w.cfg.ecmp_longer.0 } else { 0 };
+                let reaches_target = w.cfg.target_dist.is_some_and(|d| u16::from(ttl) >= u16::from(d) + u16::from(extra));
+                if extra > 0 && w.cfg.target_dist.is_some_and(|d| ttl >= d) && !reaches_target {
+                    // the last router of the longer branch
+                    let ready_call = w.recv_calls + w.cfg.latency;
+                    w.pending.push(Pend { ready_call, for_send: idx, is_target: false, addr: IpAddr::V4(Ipv4Addr::new(10, 1, ttl, 253)), dup_done: false });
+                } else if reaches_target {
                     let addr = w.cfg.strategy.target_addr;
                     let ready_call = w.recv_calls + w.cfg.latency;
                     w.pending.push(Pend { ready_call, for_send: idx, is_target: true, addr, dup_done: false });
